@@ -564,9 +564,20 @@ impl Budget {
 fn judge_accept(out: &mut Out, bud: &mut Budget, entry: &str, ctx: CtxK, n: &Node, wire: &str, base_b: bool) {
     let mut sus = suspects(ctx, n, base_b);
     if entry.starts_with("fromast") { sus.retain(|r| *r != "top" && *r != "cond"); }
+    // older(0) is only known to get through on the unchecked-constructor route; everywhere else
+    // the range rule stays inside the ctxok line (a decoder or parser letting it in is NEW)
+    if !(entry.contains(":api-ctor") || entry.starts_with("fromast/ctor")) { sus.retain(|r| *r != "range"); }
+    // the unchecked leaf constructors also skip the size comparison of from_ast (F20): a bare
+    // Miniscript::multi over 15+ keys is larger than a P2SH redeem script may be
+    if entry.starts_with("fromast/ctor") {
+        if let Node::Multi(_, v) | Node::SortedMulti(_, v) | Node::MultiA(_, v) | Node::SortedMultiA(_, v) = n { if v.len() >= 15 { sus.push("size"); } }
+    }
     let skip = if sus.is_empty() { "-".to_string() } else { sus.join(",") };
     ln(out, &format!("J ctxok {} {} {} {}", entry, ctx.name(), skip, wire), "ok");
     for r in sus {
+        // a translated descriptor inherits F13 from its source (`Sh` re-wraps without `Sh::new`);
+        // the rule stays skipped in the ctxok line, no separate line per translator
+        if r == "cond" && entry.starts_with("translate/") { continue; }
         if bud.take(format!("{} {} {}", r, entry, ctx.name())) {
             // `range` can only be suspect because of older(0): its own rule name, so that the
             // finding line names exactly that class
@@ -580,7 +591,7 @@ fn judge_accept(out: &mut Out, bud: &mut Budget, entry: &str, ctx: CtxK, n: &Nod
 
 /* ------------------------------------------------------------------ one AST through everything */
 
-struct Opts { full_params: bool, strings: bool, switches: bool }
+struct Opts { full_params: bool, strings: bool, switches: bool, routes: bool }
 
 fn param_variants(ctx: CtxK) -> Vec<ValidationParams> {
     let mut v = vec![];
@@ -646,6 +657,9 @@ where Ctx::Key: PkOf + miniscript::ToPublicKey {
             ln(out, &format!("J mono {} {} {} {} {} {}", cn, show_params(&r), show_params(&p), wire, vr, vp), "ok");
             ln(out, &format!("J mono {} {} {} {} {} {}", cn, show_params(&r), show_params(&q), wire, vr, vq), "ok");
         }
+        // the Lean side can only measure the real script when every key is of the kind the context
+        // serialises as is (x-only in tap, full keys elsewhere; multipath atoms have no bytes)
+        let native_keys = { let mut ks = vec![]; n.keys(&mut ks); ks.iter().all(|k| if ctx == CtxK::Tap { (200..300).contains(k) } else { *k < 200 }) };
         // limits at the script's own figures -1 / 0 / +1 (and the judge for each)
         let figs = figures(ms);
         for (li, base) in [(0usize, ValidationParams::MAX), (1, ValidationParams::MAX), (2, ValidationParams::MAX), (3, ValidationParams::MAX), (4, ValidationParams::MAX), (rng.below(5), ctx_const(ctx, true))] {
@@ -657,6 +671,10 @@ where Ctx::Key: PkOf + miniscript::ToPublicKey {
                 let mut p = base; set_lim(&mut p, li, l);
                 let without = verdict(guard(|| ms.validate(&p)));
                 ln(out, &format!("C validate {} {} {}", cn, show_params(&p), wire), &without);
+                if base.eq(&ValidationParams::MAX) && li == 1 && native_keys {
+                    // the REAL length: the Lean side encodes the script itself and measures it
+                    ln(out, &format!("J limitsize {} {} {} {} {}", cn, show_lim(l), wire, with, without), "ok");
+                }
                 if base.eq(&ValidationParams::MAX) {
                     let fs = match f { Some(f) => f.to_string(), None => "-".into() };
                     ln(out, &format!("J limit {} {} {} {} {} {} {}", LIM_NAMES[li], cn, show_lim(l), wire, fs, with, without), "ok");
@@ -677,6 +695,29 @@ where Ctx::Key: PkOf + miniscript::ToPublicKey {
                 }
             }
         }
+        // switches judged from the context's SANE side as well: for every switch X that Ctx::SANE
+        // has off, "SANE with X allowed" vs "SANE" - a script whose ONLY defect is X is accepted by
+        // the first and refused by the second (R2: the designated one-defect corpus lives on this)
+        if o.switches {
+            let sane = ctx_const(ctx, true);
+            let without = verdict(guard(|| ms.validate(&sane)));
+            for i in 0..N_SW {
+                if get_sw(&sane, i) { continue; }
+                let mut base = sane; set_sw(&mut base, i, true);
+                let with = verdict(guard(|| ms.validate(&base)));
+                ln(out, &format!("J switch {} {} {} {} {} {}", SW_NAMES[i], cn, show_params(&base), wire, with, without), "ok");
+            }
+        }
+        // R4: a deep clone is the same miniscript for validate
+        if o.switches {
+            if let Some(c) = guard(|| ms.clone()) {
+                for p in [ctx_const(ctx, true), ctx_const(ctx, false)] {
+                    ln(out, &format!("C validate {} {} {}", cn, show_params(&p), wire), &verdict(guard(|| c.validate(&p))));
+                }
+            } else { ln(out, &format!("C validate {} {} {}", cn, show_params(&ctx_const(ctx, true)), wire), "PANIC"); }
+        }
+        // R1: translate_pk outputs, compiler-free
+        if o.routes { translate_routes::<Ctx>(out, bud, ctx, n, ms); }
         // 3. wrapper constructors
         wrappers::<Ctx>(out, bud, ctx, n, &wire, ms, base_b);
     }
@@ -776,6 +817,207 @@ where Ctx::Key: PkOf {
             judge_accept(out, bud, "ms_consensus/decode_with_validation_params", ctx, &dn, &dw, dec.ty.corr.base == Base::B);
         }
     }
+}
+
+/// key-id maps used as translators: identity, to uncompressed, to x-only, to compressed, to multipath
+struct IdMap(fn(u32) -> u32);
+impl miniscript::Translator<Dpk> for IdMap {
+    type TargetPk = Dpk;
+    type Error = ();
+    fn pk(&mut self, pk: &Dpk) -> Result<Dpk, ()> { let id = pk.id_of().ok_or(())?; Dpk::of((self.0)(id)).ok_or(()) }
+    miniscript::translate_hash_clone!(Dpk, Dpk, ());
+}
+fn map_node(n: &Node, f: fn(u32) -> u32) -> Node {
+    use Node::*;
+    let b = |x: &Node| Box::new(map_node(x, f));
+    let ks = |v: &Vec<u32>| v.iter().map(|k| f(*k)).collect::<Vec<u32>>();
+    match n {
+        PkK(k) => PkK(f(*k)), PkH(k) => PkH(f(*k)),
+        Multi(k, v) => Multi(*k, ks(v)), SortedMulti(k, v) => SortedMulti(*k, ks(v)),
+        MultiA(k, v) => MultiA(*k, ks(v)), SortedMultiA(k, v) => SortedMultiA(*k, ks(v)),
+        Alt(x) => Alt(b(x)), Swap(x) => Swap(b(x)), Check(x) => Check(b(x)), DupIf(x) => DupIf(b(x)), Verify(x) => Verify(b(x)),
+        NonZero(x) => NonZero(b(x)), ZeroNotEqual(x) => ZeroNotEqual(b(x)),
+        AndV(x, y) => AndV(b(x), b(y)), AndB(x, y) => AndB(b(x), b(y)), AndOr(x, y, z) => AndOr(b(x), b(y), b(z)),
+        OrB(x, y) => OrB(b(x), b(y)), OrD(x, y) => OrD(b(x), b(y)), OrC(x, y) => OrC(b(x), b(y)), OrI(x, y) => OrI(b(x), b(y)),
+        Thresh(k, xs) => Thresh(*k, xs.iter().map(|x| map_node(x, f)).collect()),
+        other => other.clone(),
+    }
+}
+const KEY_MAPS: [(&str, fn(u32) -> u32); 4] = [
+    ("id", |k| k),
+    ("to-uncompressed", |k| if k < 100 { k + 100 } else { k }),
+    ("to-xonly", |k| if k < 100 { k + 200 } else { k }),
+    ("to-compressed", |k| if (100..300).contains(&k) { k % 100 } else { k }),
+];
+
+/// `Miniscript::translate_pk` and the descriptor wrapper's `translate_pk` (which re-wraps the
+/// translated miniscript WITHOUT `Self::new`): whatever comes out is again an accepted object
+fn translate_routes<Ctx: ScriptContext>(out: &mut Out, bud: &mut Budget, ctx: CtxK, n: &Node, ms: &Miniscript<Dpk, Ctx>) {
+    let cn = ctx.name();
+    if n.size() > 40 { return; }
+    for (name, f) in KEY_MAPS {
+        let tn = map_node(n, f);
+        if name != "id" && tn == *n { continue; }
+        let tw = tn.wire();
+        let r = guard(|| ms.translate_pk(&mut IdMap(f)));
+        let v = match &r { None => "PANIC", Some(Ok(_)) => "ok", Some(Err(_)) => "ERR" };
+        ln(out, &format!("C accept fromast/Miniscript::translate_pk:{} {} {}", name, cn, tw), v);
+        if let Some(Ok(t)) = &r { judge_accept(out, bud, &format!("fromast/Miniscript::translate_pk:{}", name), ctx, &tn, &tw, t.ty.corr.base == Base::B); }
+        // through the descriptor (every arm that holds a miniscript)
+        let base_b = ms.ty.corr.base == Base::B;
+        let descs: Vec<(&str, Option<Descriptor<Dpk>>)> = match ctx {
+            CtxK::Segwitv0 => { let m = guard(|| to_ms::<Dpk, Segwitv0>(n)).and_then(|r| r.ok());
+                vec![("Wsh", m.clone().and_then(|m| Descriptor::new_wsh(m).ok())), ("ShWsh", m.and_then(|m| Descriptor::new_sh_wsh(m).ok()))] }
+            CtxK::Legacy => { let m = guard(|| to_ms::<Dpk, Legacy>(n)).and_then(|r| r.ok()); vec![("Sh", m.and_then(|m| Descriptor::new_sh(m).ok()))] }
+            CtxK::Bare => { let m = guard(|| to_ms::<Dpk, BareCtx>(n)).and_then(|r| r.ok()); vec![("Bare", m.and_then(|m| Descriptor::new_bare(m).ok()))] }
+            CtxK::Tap => { let m = guard(|| to_ms::<Dpk, Tap>(n)).and_then(|r| r.ok());
+                vec![("Tr", m.and_then(|m| Descriptor::new_tr(Dpk::of(299).unwrap(), Some(TapTree::leaf(m))).ok()))] }
+        };
+        for (arm, d) in descs {
+            let d = match d { Some(d) => d, None => continue };
+            let r = guard(|| d.translate_pk(&mut IdMap(f)));
+            let v = match &r { None => "PANIC", Some(Ok(_)) => "ok", Some(Err(_)) => "ERR" };
+            // Tr::translate_pk goes through Tr::new (leaf validated); the others only re-wrap
+            let entry = if arm == "Tr" { "tr_new" } else { "fromast" };
+            ln(out, &format!("C accept {}/Descriptor::{}::translate_pk:{} {} {}", entry, arm, name, cn, tw), v);
+            if v == "ok" { judge_accept(out, bud, &format!("translate/Descriptor::{}::translate_pk:{}", arm, name), ctx, &tn, &tw, base_b); }
+        }
+    }
+}
+
+/// R3: scripts no encoder of the library produces (out-of-range locks and thresholds written by
+/// hand); whatever `decode*` accepts must obey the context
+fn raw_scripts(out: &mut Out, bud: &mut Budget) {
+    use miniscript::bitcoin::blockdata::opcodes::all as op;
+    use miniscript::bitcoin::script::Builder;
+    let k = |i: u32| full_key(i);
+    let mut list: Vec<(&str, miniscript::bitcoin::ScriptBuf)> = vec![];
+    let pkv = |b: Builder, i: u32| b.push_key(&k(i)).push_opcode(op::OP_CHECKSIGVERIFY);
+    list.push(("older0", pkv(Builder::new(), 0).push_int(0).push_opcode(op::OP_CSV).into_script()));
+    list.push(("after0", pkv(Builder::new(), 0).push_int(0).push_opcode(op::OP_CLTV).into_script()));
+    list.push(("older2^31", pkv(Builder::new(), 0).push_int(0x8000_0000).push_opcode(op::OP_CSV).into_script()));
+    list.push(("after2^31", pkv(Builder::new(), 0).push_int(0x8000_0000).push_opcode(op::OP_CLTV).into_script()));
+    list.push(("older-nonminimal", pkv(Builder::new(), 0).push_slice([10u8, 0]).push_opcode(op::OP_CSV).into_script()));
+    list.push(("multi-k0", Builder::new().push_int(0).push_key(&k(0)).push_key(&k(1)).push_int(2).push_opcode(op::OP_CHECKMULTISIG).into_script()));
+    list.push(("multi-k3of2", Builder::new().push_int(3).push_key(&k(0)).push_key(&k(1)).push_int(2).push_opcode(op::OP_CHECKMULTISIG).into_script()));
+    { let mut b = Builder::new().push_int(1); for i in 0..21 { b = b.push_key(&k(i)); } list.push(("multi-n21", b.push_int(21).push_opcode(op::OP_CHECKMULTISIG).into_script())); }
+    list.push(("multi-n-mismatch", Builder::new().push_int(1).push_key(&k(0)).push_key(&k(1)).push_int(3).push_opcode(op::OP_CHECKMULTISIG).into_script()));
+    let th = |kk: i64| Builder::new().push_key(&k(0)).push_opcode(op::OP_CHECKSIG).push_opcode(op::OP_SWAP).push_key(&k(1)).push_opcode(op::OP_CHECKSIG).push_opcode(op::OP_ADD).push_int(kk).push_opcode(op::OP_EQUAL).into_script();
+    list.push(("thresh-k0", th(0))); list.push(("thresh-k3of2", th(3))); list.push(("thresh-k2of2", th(2)));
+    list.push(("pk-uncompressed", Builder::new().push_key(&k(100)).push_opcode(op::OP_CHECKSIG).into_script()));
+    list.push(("pk-32-bytes", Builder::new().push_slice(xonly_key(200).serialize()).push_opcode(op::OP_CHECKSIG).into_script()));
+    list.push(("empty", Builder::new().into_script()));
+    list.push(("trailing", Builder::new().push_key(&k(0)).push_opcode(op::OP_CHECKSIG).push_opcode(op::OP_DROP).into_script()));
+    fn go<Ctx: ScriptContext>(out: &mut Out, bud: &mut Budget, ctx: CtxK, name: &str, sc: &miniscript::bitcoin::Script) where Ctx::Key: PkOf {
+        for (entry, r) in [
+            ("ms_sane/decode:raw", guard(|| Miniscript::<Ctx::Key, Ctx>::decode(sc))),
+            ("ms_consensus/decode_consensus:raw", guard(|| Miniscript::<Ctx::Key, Ctx>::decode_consensus(sc))),
+            ("ms_consensus/decode_with_validation_params(MAX):raw", guard(|| Miniscript::<Ctx::Key, Ctx>::decode_with_validation_params(sc, &ValidationParams::MAX))),
+        ] {
+            match r {
+                None => ln(out, &format!("J nopanic {} {} {} PANIC", entry, ctx.name(), name), "ok"),
+                Some(Err(_)) => out.count(&format!("raw-script-refused {}", name)),
+                Some(Ok(m)) => match from_ms(&m) {
+                    Some(dn) => {
+                        let dw = dn.wire();
+                        // MAX ("anything goes") is not a context's parameter set: nothing is claimed
+                        // about what it lets through; the model line below still covers it
+                        if !entry.contains("MAX") { judge_accept(out, bud, entry, ctx, &dn, &dw, m.ty.corr.base == Base::B); }
+                        ln(out, &format!("C decodevp {} {} {} raw-{}", ctx.name(), show_params(&ValidationParams::MAX), dw, name), "ok");
+                    }
+                    None => out.count("raw-script-accepted-unmapped"),
+                },
+            }
+        }
+    }
+    for (name, sc) in &list {
+        go::<Legacy>(out, bud, CtxK::Legacy, name, sc);
+        go::<Segwitv0>(out, bud, CtxK::Segwitv0, name, sc);
+        go::<BareCtx>(out, bud, CtxK::Bare, name, sc);
+        go::<Tap>(out, bud, CtxK::Tap, name, sc);
+    }
+}
+
+/// R1: compiler outputs are accepted objects too - judged by the context rules
+fn compiler_outputs(out: &mut Out, bud: &mut Budget) {
+    use miniscript::policy::Concrete;
+    for ctx in CtxK::ALL {
+        let b = if ctx == CtxK::Tap { 200 } else { 0 };
+        let key = |i: u32| key_string(b + i);
+        let h = hex(&hash_value(HK::Sha256, 0));
+        let pols = vec![
+            format!("pk({})", key(0)),
+            format!("and(pk({}),older(10))", key(0)),
+            format!("or(pk({}),and(pk({}),sha256({})))", key(0), key(1), h),
+            format!("thresh(2,pk({}),pk({}),pk({}))", key(0), key(1), key(2)),
+            format!("or(99@pk({}),1@and(pk({}),after(100)))", key(0), key(1)),
+            format!("or(pk({}),or(pk({}),and(pk({}),older(4194305))))", key(0), key(1), key(2)),
+            format!("thresh(2,pk({}),pk({}),and(pk({}),older(10)))", key(0), key(1), key(2)),
+        ];
+        for ps in pols {
+            let pol = match Concrete::<Dpk>::from_str(&ps) { Ok(p) => p, Err(_) => { out.count("compile-policy-unparsed"); continue; } };
+            fn one<Ctx: ScriptContext>(out: &mut Out, bud: &mut Budget, ctx: CtxK, pol: &Concrete<Dpk>) {
+                match guard(|| pol.compile::<Ctx>()) {
+                    None => ln(out, &format!("J nopanic compile/Concrete::compile {} {} PANIC", ctx.name(), pol.to_string().replace(' ', "")), "ok"),
+                    Some(Err(_)) => out.count(&format!("compile-refused {}", ctx.name())),
+                    Some(Ok(m)) => match from_ms(&m) {
+                        Some(dn) => { let dw = dn.wire(); judge_accept(out, bud, "compile/Concrete::compile", ctx, &dn, &dw, m.ty.corr.base == Base::B);
+                            ln(out, &format!("C accept ms_sane/compile-output {} {}", ctx.name(), dw), okerr(guard(|| m.validate(&Ctx::SANE)))); }
+                        None => out.count("compile-output-unmapped"),
+                    },
+                }
+            }
+            match ctx {
+                CtxK::Bare => one::<BareCtx>(out, bud, ctx, &pol), CtxK::Legacy => one::<Legacy>(out, bud, ctx, &pol),
+                CtxK::Segwitv0 => one::<Segwitv0>(out, bud, ctx, &pol), CtxK::Tap => one::<Tap>(out, bud, ctx, &pol),
+            }
+        }
+    }
+}
+
+/// R2: one script per validation switch whose ONLY defect (relative to Ctx::SANE) is that switch,
+/// and R5: combinators over the casts `t:` / `l:` / `u:` (and_v(X,1), or_i(0,X), or_i(X,0))
+fn switch_and_cast_corpus(ctx: CtxK) -> Vec<Node> {
+    use Node::*;
+    let b = if ctx == CtxK::Tap { 200 } else { 0 };
+    let (k0, k1, k2, k3) = (b, b + 1, b + 2, b + 3);
+    let t = |x: Node| and_v(v(x), True);          // t:v:X
+    let l = |x: Node| OrI(bx(False), bx(x));      // l:X
+    let u = |x: Node| OrI(bx(x), bx(False));      // u:X
+    let mut c = vec![
+        // duplicate keys only (every pair of occurrence kinds)
+        and_v(v(pk(k0)), pk(k0)), and_v(v(pkh(k0)), pk(k0)), and_v(v(pkh(k0)), pkh(k0)),
+        OrD(bx(pk(k0)), bx(and_v(v(pkh(k0)), Older(10)))),
+        // mixed time locks only (every pair of units, signed)
+        and_v(v(pk(k0)), and_v(v(After(100)), After(500_000_001))), and_v(v(pk(k0)), and_v(v(Older(10)), Older(4_194_305))),
+        Thresh(3, vec![pk(k0), Swap(bx(l(ZeroNotEqual(bx(Older(10)))))), Swap(bx(l(ZeroNotEqual(bx(Older(4_194_305))))))]),
+        // raw pkh only, sigless only, malleable only, non-B only, unsatisfiable (allowed by SANE)
+        and_v(v(Check(bx(RawPkH(b)))), pk(k1)),
+        Older(10), OrD(bx(pk(k0)), bx(Older(10))), and_v(v(Hash(HK::Sha256, 0)), Older(10)),
+        OrD(bx(pk(k0)), bx(AndB(bx(Hash(HK::Sha256, 0)), bx(Alt(bx(Hash(HK::Hash160, 1))))))),
+        AndOr(bx(Hash(HK::Sha256, 0)), bx(pk(k0)), bx(pk(k1))),
+        v(pk(k0)), PkK(k0), Alt(bx(pk(k0))),
+        and_v(v(pk(k0)), False), OrD(bx(pk(k0)), bx(False)),
+        // multipath mismatch only
+        and_v(v(pk(300)), pk(310)), and_v(v(pk(300)), pk(301)),
+        // d: / or_i only (defects in Bare / Legacy), multisig flavours
+        OrI(bx(pk(k0)), bx(pk(k1))), and_v(v(pk(k0)), OrD(bx(pk(k1)), bx(DupIf(bx(v(pk(k2))))))),
+        and_v(v(pk(k0)), Multi(1, vec![k1, k2])), and_v(v(pk(k0)), MultiA(1, vec![k1, k2])),
+    ];
+    // casts under combinators and wrappers
+    for x in [pk(k1), pkh(k1), Hash(HK::Sha256, 0), Multi(1, vec![k2, k3]), MultiA(1, vec![k2, k3])] {
+        c.extend([
+            and_v(v(pk(k0)), t(x.clone())), OrD(bx(u(pk(k0))), bx(x.clone())), OrD(bx(pk(k0)), bx(l(x.clone()))),
+            AndB(bx(pk(k0)), bx(Alt(bx(u(x.clone()))))), AndB(bx(l(pk(k0))), bx(Alt(bx(x.clone())))),
+            OrB(bx(u(pk(k0))), bx(Alt(bx(l(x.clone()))))), AndOr(bx(u(pk(k0))), bx(t(x.clone())), bx(pk(k3))),
+            Thresh(2, vec![u(pk(k0)), Alt(bx(l(x.clone()))), Swap(bx(pk(k3)))]),
+            NonZero(bx(u(x.clone()))), ZeroNotEqual(bx(l(x.clone()))), OrC(bx(u(pk(k0))), bx(v(t(x.clone())))),
+            and_v(v(t(x.clone())), pk(k0)), and_v(OrC(bx(u(pk(k0))), bx(v(x.clone()))), True),
+        ]);
+    }
+    c.extend([l(Older(10)), u(Older(10)), and_v(v(pk(k0)), l(After(100))), OrD(bx(pk(k0)), bx(t(Older(10)))),
+        DupIf(bx(v(t(Older(10))))), and_v(v(pk(k0)), DupIf(bx(v(Older(10)))))]);
+    c
 }
 
 fn wrappers<Ctx: ScriptContext>(out: &mut Out, bud: &mut Budget, ctx: CtxK, n: &Node, wire: &str, _ms: &Miniscript<Dpk, Ctx>, base_b: bool) {
@@ -1204,21 +1446,35 @@ pub fn run(out: &mut Out, thorough: bool, seed: u64) {
         out.note(&format!("stress_{}", ctx.name()), st.len().to_string());
         for n in &st {
             let big = n.size() > 60;
-            run_ast(out, &mut bud, ctx, n, &Opts { full_params: !big, strings: true, switches: true }, &mut rng);
+            run_ast(out, &mut bud, ctx, n, &Opts { full_params: !big, strings: true, switches: true, routes: true }, &mut rng);
         }
         // the shared dimension corpus (all hash kinds, both lock units, lock pairs in both orders,
         // thresholds with lock children, surplus multisig, raw hashes, uncompressed keys), every tier
         let corpus = ast::dimension_corpus(ctx);
         out.note(&format!("corpus_{}", ctx.name()), corpus.len().to_string());
         for n in &corpus {
-            run_ast(out, &mut bud, ctx, n, &Opts { full_params: true, strings: true, switches: true }, &mut rng);
+            run_ast(out, &mut bud, ctx, n, &Opts { full_params: true, strings: true, switches: true, routes: true }, &mut rng);
+            run_api(out, &mut bud, ctx, n);
+        }
+        // the FULL set of wrapper towers (the dimension corpus carries a thin slice only) through the
+        // validate / switch / limit streams (no strings, no routes: those see the thin slice)
+        let towers = ast::wrapper_towers(ctx);
+        out.note(&format!("wrapper_towers_{}", ctx.name()), towers.len().to_string());
+        for n in &towers {
+            run_ast(out, &mut bud, ctx, n, &Opts { full_params: false, strings: false, switches: true, routes: false }, &mut rng);
+        }
+        // R2 / R5: one-defect scripts per switch, combinators over casts
+        let sc = switch_and_cast_corpus(ctx);
+        out.note(&format!("switch_cast_corpus_{}", ctx.name()), sc.len().to_string());
+        for n in &sc {
+            run_ast(out, &mut bud, ctx, n, &Opts { full_params: true, strings: true, switches: true, routes: true }, &mut rng);
             run_api(out, &mut bud, ctx, n);
         }
         // public-API routes that bypass from_consensus / from_ast
         let api = api_cases(ctx);
         out.note(&format!("api_cases_{}", ctx.name()), api.len().to_string());
         for n in &api { run_api(out, &mut bud, ctx, n); }
-        for n in st.iter().filter(|n| n.size() <= 60).step_by(3) { run_api(out, &mut bud, ctx, n); }
+        for n in st.iter() { run_api(out, &mut bud, ctx, n); }
         // typed enumeration, all base types
         let atoms = ast::default_atoms(ctx, !thorough);
         let (depth, quota) = if thorough { (4, 30) } else { (3, 8) };
@@ -1228,13 +1484,15 @@ pub fn run(out: &mut Out, thorough: bool, seed: u64) {
             total += 1;
             t.node.count_frags(out);
             let full = thorough || i % 5 == 0;
-            run_ast(out, &mut bud, ctx, &t.node, &Opts { full_params: full, strings: true, switches: true }, &mut rng);
+            run_ast(out, &mut bud, ctx, &t.node, &Opts { full_params: full, strings: true, switches: true, routes: i % 5 == 0 }, &mut rng);
             if i % 7 == 0 { run_api(out, &mut bud, ctx, &t.node); }
         }
     }
     sortedmulti(out, &mut bud);
     key_only(out);
     tr_trees(out, thorough, &mut rng);
-    out.note("domain", format!("{} enumerated ASTs (all base types, 4 contexts, depth 3) + stress lists; 2^15 switch vectors", total));
+    raw_scripts(out, &mut bud);
+    compiler_outputs(out, &mut bud);
+    out.note("domain", format!("{} enumerated ASTs (all base types, 4 contexts, depth 3) + stress lists + dimension corpus (incl. wrapper towers) + one-defect-per-switch and cast-tower corpus, each through from_ast / validate (MAX-side and SANE-side switch flips, limits at the own figures, real-length size judge) / strings / decode / wrappers / API routes / translate_pk / clone; key-only descriptors; multi-leaf tr; hand-written raw scripts; compiler outputs; 2^15 switch vectors", total));
     out.note("distinct_nontrivial", total.to_string());
 }
